@@ -75,7 +75,9 @@ def run(chk):
     chk.rule("R3", "compound assignments of the tensor classes equal the corresponding pure operator")
     chk.rule("R6", "component accessors (x, xy, ...), Mutable_<c>() references, Set_<c>(v) setters and the component-list constructors of the "
                    "four tensor classes address the entry of the embedded 3x3 matrix / 3-vector that their name says (the symmetric "
-                   "aliases yx, zx, zy share the slots of xy, xz, yz); a setter changes nothing else")
+                   "aliases yx, zx, zy share the slots of xy, xz, yz); a setter changes nothing else; the array forms map element k to "
+                   "the k-th name; conversions between the classes (planar <-> 3-D, symmetric -> general) preserve the embedded entries; "
+                   "IsSymmetric() is the conjunction of the three mirrored equalities")
     chk.assumptions += ["polynomial identity over Q implies exact agreement on integer-valued inputs (degree <= 3, no rounding below 2^53/products)",
                         "the few-ulp clause on non-integer inputs is decided only for kernels without cancellation (R5); for dot/cross/determinant/products it is input-dependent and NOT decided"]
     n = 0
@@ -230,7 +232,9 @@ def entry(M, name):
 
 
 def component_access(chk, F, tn, sh, T):
-    """R6 for one tensor class. Returns the number of members examined."""
+    """R6 for one tensor class: single-component accessors / references / setters, component-list constructors and setters,
+    the array forms (constructor, assignment, setter, accessor), the embedding conversions between the four classes, and
+    IsSymmetric().  Returns the number of members examined."""
     n = 0
     rank = 1 if sh in ("planar", "vector") else 2
     valid = lambda c: COMP.match(c) and len(c) == rank and not (sh == "planar" and "z" in c)   # noqa: E731
@@ -301,6 +305,104 @@ def component_access(chk, F, tn, sh, T):
                     chk.violated("R6", inst, "; ".join(probs[:3]), loc)
                 else:
                     chk.holds("R6", inst, "each argument lands in the entry of its name", loc)
+            elif f["kind"] == "method" and sn.startswith("Set_") and len(pts) > 1 and all(strip_cvref(p) in FLOATS for p in pts) \
+                    and all(valid(p_["n"] or "") for p_ in f["params"]):
+                n += 1
+                inst = "%s::%s(%s)" % (tn, sn, ", ".join(p_["n"] for p_ in f["params"]))
+                this = E.new_loc(E.symbolic(tn, "a"), "this")
+                E.call(f["id"], this, [("leaf", "p_" + p_["n"]) for p_ in f["params"]])
+                M = TA.embed(sh, comps(conv, E.load(this)))
+                probs = ["entry %s is %s, expected the argument named %s" % (p_["n"], entry(M, p_["n"]), p_["n"])
+                         for p_ in f["params"] if not nf.equal(entry(M, p_["n"]), conv(("leaf", "p_" + p_["n"])))]
+                if len(f["params"]) != len(comps(conv, E.load(this))):
+                    probs.append("%d arguments for %d stored components" % (len(f["params"]), len(comps(conv, E.load(this)))))
+                (chk.violated if probs else chk.holds)("R6", inst, "; ".join(probs[:3]) or "each argument lands in the entry of its name", loc)
+            elif len(pts) == 1 and strip_cvref(pts[0]).startswith("std::array<") and (f["kind"] == "ctor" or sn == "operator=" or sn.startswith("Set_")) \
+                    and all(valid(c) for c in (f["params"][0]["n"] or "-").split("_")):
+                n += 1
+                names = f["params"][0]["n"].split("_")
+                inst = "%s::%s(array %s)" % (tn, sn, f["params"][0]["n"])
+                this = E.new_loc(E.blank(tn) if f["kind"] == "ctor" else E.symbolic(tn, "a"), "this")
+                arr = E.new_loc(ev.Obj(strip_cvref(pts[0]), {"_M_elems": ev.Arr([("leaf", "e_" + c) for c in names])}), "arg")
+                E.call(f["id"], this, [arr])
+                M = TA.embed(sh, comps(conv, E.load(this)))
+                probs = ["entry %s is %s, expected array element %d (%s)" % (c, entry(M, c), k, c)
+                         for k, c in enumerate(names) if not nf.equal(entry(M, c), conv(("leaf", "e_" + c)))]
+                (chk.violated if probs else chk.holds)("R6", inst, "; ".join(probs[:3]) or "element k of the array lands in the entry named by the k-th component of the parameter name", loc)
+            elif f["kind"] == "method" and not pts and "_" in sn and all(valid(c) for c in sn.replace("Mutable_", "").split("_")):
+                n += 1
+                names = sn.replace("Mutable_", "").split("_")
+                inst = "%s::%s()" % (tn, sn)
+                this = E.new_loc(E.symbolic(tn, "a"), "this")
+                r = E.call(f["id"], this, [])
+                got = [conv(t) for _, t in ev.flatten(E.rv(r))]
+                M = TA.embed(sh, comps(conv, E.load(this)))
+                probs = []
+                if len(got) != len(names):
+                    probs.append("returns %d elements for %d names" % (len(got), len(names)))
+                else:
+                    probs = ["element %d is %s, the %s entry is %s" % (k, g, c, entry(M, c)) for k, (g, c) in enumerate(zip(got, names)) if not nf.equal(g, entry(M, c))]
+                if sn.startswith("Mutable_") and not (isinstance(r, ev.LV) and r.loc == this.loc):
+                    probs.append("does not return a reference into the object")
+                (chk.violated if probs else chk.holds)("R6", inst, "; ".join(probs[:3]) or "element k is the entry named by the k-th component of the name", loc)
+            elif len(pts) == 1 and (f["kind"] == "ctor" or sn == "operator=") and shape_of(F, pts[0]) in ("planar", "vector", "symdyad", "dyad") \
+                    and shape_of(F, pts[0]) != sh and strip_cvref(pts[0]).endswith("<%s>" % T) and not (f.get("copy_ctor") or f.get("move_ctor")):
+                n += 1
+                ssh = shape_of(F, pts[0])
+                inst = "%s::%s(%s)" % (tn, sn, strip_cvref(pts[0]).replace("PhQ::", ""))
+                this = E.new_loc(E.blank(tn) if f["kind"] == "ctor" else E.symbolic(tn, "a"), "this")
+                src = E.new_loc(E.symbolic(strip_cvref(pts[0]), "b"), "arg")
+                E.call(f["id"], this, [src])
+                M = TA.embed(sh, comps(conv, E.load(this)))
+                S = TA.embed(ssh, comps(conv, E.load(src)))
+                probs = []
+                if M.shape != S.shape:
+                    probs.append("a %s cannot hold a %s" % (sh, ssh))
+                else:
+                    for r_ in range(M.shape[0]):
+                        for c_ in range(M.shape[1]):
+                            if sh == "planar" and M.shape[1] == 1 and r_ == 2:
+                                continue          # the planar projection drops z
+                            if not nf.equal(M[r_, c_], S[r_, c_]):
+                                probs.append("entry %s%s is %s, the source has %s" % ("xyz"[r_], "xyz"[c_] if M.shape[1] == 3 else "", M[r_, c_], S[r_, c_]))
+                (chk.violated if probs else chk.holds)("R6", inst, "; ".join(probs[:3]) or "the embedded %s equals the embedded %s entry by entry" % (sh, ssh), loc)
+            elif f["kind"] == "method" and sn == "IsSymmetric" and not pts:
+                n += 1
+                inst = "%s::IsSymmetric()" % tn
+                this = E.new_loc(E.symbolic(tn, "a"), "this")
+                res = E.rv(E.call(f["id"], this, []))
+                slot_names = [nme for nme, _ in ev.flatten(E.symbolic(tn, "a"))]
+                from .. import order
+                atoms = []
+                order.collect_atoms(res, atoms)
+                M = TA.embed(sh, [sympy.Symbol("s%d" % k) for k in range(len(slot_names))])
+                leaf_sym = {}
+                for k, (_, t) in enumerate(ev.flatten(E.symbolic(tn, "a"))):
+                    leaf_sym[t[1]] = sympy.Symbol("s%d" % k)
+                pairs = [(M[0, 1], M[1, 0]), (M[0, 2], M[2, 0]), (M[1, 2], M[2, 1])]
+                amap = {}
+                bad_atom = None
+                for a_ in atoms:
+                    x_, y_ = leaf_sym.get(order._leafname(a_[2])), leaf_sym.get(order._leafname(a_[3]))
+                    k_ = next((k for k, (p, q) in enumerate(pairs) if {x_, y_} == {p, q}), None)
+                    if k_ is None or a_[1] not in ("==", "!="):
+                        bad_atom = ev.show(a_)
+                        break
+                    amap[a_] = k_
+                if bad_atom:
+                    chk.violated("R6", inst, "tests %s, which is not the equality of two mirrored entries" % bad_atom[:120], loc)
+                else:
+                    import itertools
+                    wrong = None
+                    for eqs in itertools.product((True, False), repeat=3):
+                        got = order.evaluate(res, lambda a_, eqs=eqs: eqs[amap[a_]] if a_[1] == "==" else not eqs[amap[a_]])
+                        if got != all(eqs):
+                            wrong = eqs
+                            break
+                    if wrong is None:
+                        chk.holds("R6", inst, "true exactly when xy = yx, xz = zx and yz = zy (8 cases)", loc)
+                    else:
+                        chk.violated("R6", inst, "with (xy=yx, xz=zx, yz=zy) = %s it returns %s" % (wrong, not all(wrong)), loc)
         except ev.Inconclusive as x:
             if str(x).startswith("bad array"):
                 chk.violated("R6", "%s::%s" % (tn, sn), "accesses its component array out of bounds: %s" % x, loc)
